@@ -20,6 +20,7 @@ type opRecord struct {
 	T0, T1     int64
 	S0, S1     int64
 	Late, Busy int64 // worst lateness / busy time of spawned (clock) tasks observed so far, at return
+	Desched    int64 // longest involuntary descheduling of any task observed so far, at return
 	Done       bool
 	Started    bool
 	FaultsAtT0 int64 // stalls injected before the operation started
@@ -260,6 +261,7 @@ func runScript(sc *Scenario, ro runOpts) *runResult {
 				vsim.SetOpLimits(0, 0)
 				r.T1, r.S1 = vsim.VNow(), vsim.MySteps()
 				r.Late, r.Busy = vsim.SpawnedLag()
+				r.Desched = vsim.MaxDesched()
 				r.PoolHits = vsim.PoolHitCount() - r.hits0
 				r.Done = true
 				if d != 0 {
@@ -466,7 +468,10 @@ func checkRecord(sc *Scenario, rr *runResult, c, i int, op *Op, r *opRecord, p, 
 			return
 		}
 		// never early: lat >= d - 2T - S - s  (DESIGN §3 C14)
-		S := r.Late + 2*r.Busy
+		// S: how old the clock value a deadline was computed from can have been beyond one period: the lag of
+		// the clock goroutine plus the longest time any task was kept off the CPU (a caller descheduled between
+		// refreshing the clock value and starting the clock goroutine leaves the value that much older)
+		S := r.Late + 2*r.Busy + r.Desched
 		slack := 400 * maxCost
 		lo := d - 2*tickNs - S - slack
 		if lat < lo {
